@@ -55,9 +55,18 @@ def _task(args):
 
 def load_findings():
     p = os.path.join(VERIF, 'known_findings.json')
-    if not os.path.exists(p):
-        return {'findings': [], 'fixed': []}
-    return json.load(open(p))
+    out = {'findings': [], 'fixed': []}
+    if os.path.exists(p):
+        out = json.load(open(p))
+    # per-property finding files (same entry format), merged
+    fd = os.path.join(VERIF, 'findings')
+    if os.path.isdir(fd):
+        for fn in sorted(os.listdir(fd)):
+            if fn.endswith('.json'):
+                d = json.load(open(os.path.join(fd, fn)))
+                out['findings'].extend(d.get('findings', []))
+                out['fixed'].extend(d.get('fixed', []))
+    return out
 
 
 def match_finding(findings, prop, obl):
